@@ -1088,3 +1088,36 @@ func termSize(roots ...*T) int {
 	}
 	return len(seen)
 }
+
+// dumpTerm prints a term up to the given depth (debugging aid).
+func dumpTerm(t *T, depth int) string {
+	switch t.op {
+	case "true", "false":
+		return t.op
+	case "const":
+		switch t.sort {
+		case SInt:
+			return fmt.Sprint(t.k)
+		case SReal:
+			return t.r.RatString()
+		case SStr:
+			return fmt.Sprintf("%q", t.name)
+		}
+		return fmt.Sprint(t.u)
+	case "var":
+		return t.name
+	}
+	if depth == 0 {
+		return fmt.Sprintf("#%d", t.id)
+	}
+	var sb strings.Builder
+	sb.WriteString("(" + t.op)
+	for _, a := range t.a {
+		sb.WriteString(" " + dumpTerm(a, depth-1))
+	}
+	sb.WriteString(")")
+	if t.sort == SReal {
+		fmt.Fprintf(&sb, "[%.3g,%.3g]", t.rlo, t.rhi)
+	}
+	return sb.String()
+}
